@@ -87,6 +87,12 @@ type VC struct {
 	ifaceAsserts map[string]types.Type
 	names     map[string]int
 	tableDone bool
+	lemmasUsed map[string]bool
+	strProv   map[string]strProvenance // string constants created by string([]byte): their source bytes
+}
+
+type strProvenance struct {
+	arr, off, n Term
 }
 
 func NewVC(w *World, name string) *VC {
@@ -627,4 +633,14 @@ func pruneDecls(w *World, text string) string {
 	}
 	sb.WriteString(rest)
 	return sb.String()
+}
+
+// LemmasUsed lists the lemmas this VC relied on.
+func (vc *VC) LemmasUsed() []string {
+	var out []string
+	for n := range vc.lemmasUsed {
+		out = append(out, n)
+	}
+	sort.Strings(out)
+	return out
 }
